@@ -28,9 +28,30 @@ REQUIRED_COUNTERS = ["applies", "instruction_attributions_compared",
 
 def gen_case(rng, tier, index):
     case = rwbase.gen_case(rng, tier, index)
+    if not case["funcs"] and rng.random() < 0.5:
+        # no function information at all: the three tables are absent
+        case["no_function_tables"] = True
     if rng.random() < 0.3:
         case["newfuncs"] = [new_function(rng, case, k)
                             for k in range(rng.choice([1, 1, 2]))]
+        # ... which the rewrite's own patches (or the other new function)
+        # may call
+        ps = [e["p"] for e in case["edits"]
+              if e.get("op") in ("ins", "rep") and "lines" in e.get("p", {})
+              and rwbase.find_block(case, e["b"])["code"]]
+        if ps and rng.random() < 0.5:
+            p = rng.choice(ps)
+            cut = next((k for k, ln in enumerate(p["lines"]) if "sec" in ln),
+                       len(p["lines"]))
+            p["lines"].insert(min(1, cut), {"k": "call", "t": "newfn0"})
+        if len(case["newfuncs"]) == 2 and rng.random() < 0.5:
+            case["newfuncs"][1]["p"]["lines"].insert(
+                1, {"k": "call", "t": "newfn0"})
+    elif case["funcs"] and rng.random() < 0.12:
+        # the optional functionBlocks table is missing: the caller hands its
+        # own Function objects over, functionEntries / functionNames exist
+        case["no_function_blocks_table"] = True
+        case.pop("driver", None)
     return case
 
 
@@ -60,7 +81,7 @@ def check_new_functions(a):
     the code the body assembled to.  The inserted functions are then taken
     out of the tables so that the listing oracle sees the original module."""
     import gtirb
-    viol, n = [], 0
+    viol, n, n_ret = [], 0, 0
     bu, case = a.run.bu, a.case
     m = bu.module
     isa = case["isa"]
@@ -114,15 +135,88 @@ def check_new_functions(a):
             if u2 != u and body_blocks & set(blocks):
                 viol.append({"key": "fn:inserted-function-block-in-other-"
                                     "function", "msg": nf["name"]})
+        # its returns lead to the return sites of the calls that enter it
+        ET = gtirb.Edge.Type
+        sites = set()
+        for e in entry.incoming_edges:
+            if e.label.type == ET.Call:
+                sites |= {id(x.target) for x in e.source.outgoing_edges
+                          if x.label.type == ET.Fallthrough}
+        for b in body_blocks:
+            rets = [x for x in b.outgoing_edges if x.label.type == ET.Return]
+            if rets and sites:
+                n_ret = n_ret + 1
+                got_sites = {id(x.target) for x in rets}
+                if not sites <= got_sites:
+                    viol.append({
+                        "key": "fn:inserted-function-return-edges-miss-a-"
+                               "call-site",
+                        "msg": f"{nf['name']}: {len(sites - got_sites)} of "
+                               f"{len(sites)} sites missing"})
         if fe.get(u) is fb.get(u) and u in fe:
             viol.append({"key": "fn:inserted-function-tables-share-a-set",
                          "msg": nf["name"]})
         for t in (fb, fe, fnm):
             t.pop(u, None)
-    return viol, {"inserted_functions_compared": n}
+    return viol, {"inserted_functions_compared": n,
+                  "inserted_function_returns_compared": n_ret}
+
+
+def run_without_blocks_table(case):
+    from .. import irview, rewrite
+    viol = []
+    ctr = {"applies_without_functionBlocks_table": 0, "entries_compared": 0,
+           "functions_compared": 0}
+
+    def before(r):
+        r.bu.module.aux_data.pop("functionBlocks", None)
+    run = rewrite.run(case, before_apply=before)
+    if run.exception is not None:
+        kind, key = oracles.classify_apply_exception(case, run.exception)
+        if kind != "refused":
+            viol.append({"key": key, "msg": repr(run.exception)[:300]})
+        return {"sig": None, "violations": viol, "counters": ctr}
+    ctr["applies_without_functionBlocks_table"] = 1
+    lst = rewrite.expected(case)
+    lst.layout()
+    ob = irview.observe(run.bu, case["isa"])
+    m = run.bu.module
+    fe = m.aux_data["functionEntries"].data
+    fnm = m.aux_data["functionNames"].data
+    name_of = {u: getattr(s, "name", None) for u, s in fnm.items()}
+    alive = {}
+    for si, ii, t in lst.all_tokens():
+        if t.t == "I" and t.fn is not None:
+            alive[t.fn] = alive.get(t.fn, 0) + 1
+    exp_entries = oracles.expected_entries(case, lst)
+    for f in case["funcs"]:
+        nme = f["name"]
+        ctr["functions_compared"] += 1
+        us = [u for u in fe if name_of.get(u) == nme]
+        # (a function left without any entry has no trace in these two
+        # tables: whether its code survives is then only known to the caller)
+        if alive.get(nme) and not us and exp_entries.get(nme):
+            viol.append({"key": "fn:function-with-code-vanished:"
+                                "without-functionBlocks-table", "msg": nme})
+            continue
+        if not us:
+            continue
+        exp = sorted(exp_entries.get(nme, []))
+        opt = oracles.expected_entries.optional.get(nme, set()) - set(exp)
+        got = sorted({p for p, b in ((ob.blockpos(b), b) for b in fe[us[0]])
+                      if p is not None and (b.size or p in exp)
+                      and p not in opt})
+        ctr["entries_compared"] += 1
+        if got != exp:
+            viol.append({"key": "fn:entries-differ:without-functionBlocks-"
+                                "table", "msg": f"{nme}: {got} != {exp}"})
+    sig = rwbase.shape_signature(case) + "|nofb" if case["edits"] else None
+    return {"sig": sig, "violations": viol, "counters": ctr}
 
 
 def run_case(case):
+    if case.get("no_function_blocks_table"):
+        return run_without_blocks_table(case)
     a = rwbase.analyze(case)
     if a.skip is None:
         if case.get("newfuncs"):
